@@ -7,7 +7,7 @@
 From Coq Require Import ZArith QArith List Bool Lia.
 From EosV Require Import lib.AList gen.T_eos model.World model.Status model.Calc model.Engine model.Ops
      model.Wf proofs.AList_p proofs.Rack_p proofs.Frame_p proofs.Containers_p proofs.Status_p proofs.Owner_p
-     proofs.Cinv_p proofs.Runs_p proofs.Link_p proofs.RunsC_p proofs.RunsK_p.
+     proofs.Cinv_p proofs.Runs_p proofs.Link_p proofs.Flink_p proofs.RunsC_p proofs.RunsK_p.
 Import ListNotations.
 
 Opaque add_item remove_item load unload.
@@ -309,7 +309,7 @@ Definition op_ok3 (w : world) (o : op) : Prop :=
   | _ => True
   end.
 
-Definition KINV (w : world) : Prop := CI w /\ RT [] w /\ KK w /\ FLATs w /\ CP w /\ LS w /\ SSI w.
+Definition KINV (w : world) : Prop := CI w /\ RT [] w /\ KK w /\ FLATs w /\ CP w /\ LS w /\ SSI w /\ FSI w.
 Lemma KINV_INV w : KINV w -> INV w. Proof. intros (C & R & _). now split. Qed.
 Lemma KINV_KJ w : KINV w -> KJ w. Proof. intros (C & R & K & Fl & Cp & Ls & _). split; [split; [exact R|apply C]|split; [exact K|split; [exact Fl|now split]]]. Qed.
 
@@ -318,7 +318,7 @@ Theorem md_op_KK w o :
   KK (fst (fst (md_op w o))) /\ FLATs (fst (fst (md_op w o))) /\ CP (fst (fst (md_op w o))) /\ LS (fst (fst (md_op w o))).
 Proof.
   intros I (Hok & Hsrc) H3. pose proof (KINV_KJ w I) as KJw. pose proof KJw as (Rw & Kw & Flw & Cpw & Lsw).
-  destruct I as (C & RTw & _ & _ & _ & _ & Iw). pose proof (CI_LD w C) as Ldw.
+  destruct I as (C & RTw & _ & _ & _ & _ & Iw & _). pose proof (CI_LD w C) as Ldw.
   assert (KJ2 : forall w', KJ w' -> KK w' /\ FLATs w' /\ CP w' /\ LS w') by (intros w' (_ & H); exact H).
   assert (KS : forall w', KK w' /\ w_srcs w' = w_srcs w -> FC w w' -> LC w w' -> structure w' = structure w ->
                           KK w' /\ FLATs w' /\ CP w' /\ LS w').
@@ -388,13 +388,14 @@ Qed.
 
 Lemma KINV_clear_err w : KINV w -> KINV (clear_err w).
 Proof.
-  intros (C & R & K & Fl & Cp & Ls & Ss). split; [now apply CI_clear_err|split; [|split; [|split; [|split; [|split]]]]].
+  intros (C & R & K & Fl & Cp & Ls & Ss & Fs). split; [now apply CI_clear_err|split; [|split; [|split; [|split; [|split; [|split]]]]]].
   - eapply RT_same_is; [|exact R]. repeat split.
   - eapply KK_same_is; [|exact K]. repeat split.
   - now apply (FLATs_srcs w).
   - apply (CP_same_l w); [now apply same_l_items|exact Cp].
   - apply (LS_same_isf w); [|exact Ls]. split; [repeat split|intros f; reflexivity].
   - apply (SSI_same_link w); [split; reflexivity|exact Ss].
+  - apply (FSI_same_fl w); [split; reflexivity|exact Fs].
 Qed.
 
 (* a history is clean when every call respects the caller obligations (those of proofs/Runs_p.v and
@@ -418,8 +419,10 @@ Proof.
     pose proof (md_op_KK _ o I Hok H3) as K'.
     assert (S' : w_err (fst (fst (md_op (clear_err (s_w x)) o))) = None -> SSI (fst (fst (md_op (clear_err (s_w x)) o)))).
     { apply md_op_SSI; [apply I|]. destruct o; try exact Logic.I; [apply Hok|exact H3]. }
+    assert (F' : w_err (fst (fst (md_op (clear_err (s_w x)) o))) = None -> FSI (fst (fst (md_op (clear_err (s_w x)) o)))).
+    { apply md_op_FSI; [apply I|]. destruct o; try exact Logic.I. apply Hok. }
     destruct (md_op (clear_err (s_w x)) o) as [[w' evs] r]. cbn [fst s_w] in *. intros He.
-    destruct (K' He) as (K1 & K2 & K3 & K4). split; [exact C'|split; [now apply R'|split; [exact K1|split; [exact K2|split; [exact K3|split; [exact K4|now apply S']]]]]].
+    destruct (K' He) as (K1 & K2 & K3 & K4). split; [exact C'|split; [now apply R'|split; [exact K1|split; [exact K2|split; [exact K3|split; [exact K4|split; [now apply S'|now apply F']]]]]]].
 Qed.
 
 Theorem run_KINV ops : forall x, KINV (s_w x) -> ops_clean3 x ops -> KINV (s_w (run x ops)).
@@ -430,7 +433,7 @@ Qed.
 
 Lemma KINV_empty : KINV empty_world.
 Proof.
-  split; [apply CI_empty|split; [|split; [|split; [|split; [|split]]]]].
+  split; [apply CI_empty|split; [|split; [|split; [|split; [|split; [|split]]]]]].
   - intros j it _ H. discriminate.
   - constructor; intros. all: match goal with H : get_item empty_world _ = Some _ |- _ => discriminate H | _ => idtac end.
     intros j it _ H. discriminate.
@@ -438,6 +441,7 @@ Proof.
   - split; [|split]; intros; match goal with H : get_item empty_world _ = Some _ |- _ => discriminate H end.
   - intros j jit src H. discriminate H.
   - apply SSI_empty.
+  - apply FSI_empty.
 Qed.
 
 (* from the empty system, after any clean history: a charge or an autocharge runs
@@ -630,6 +634,16 @@ Theorem solar_system_links_consistent pen ops :
   let w := s_w (run (init_sys pen) ops) in
   (forall f x, fit_solsys w f = Some x <-> In f (ss_fit_list w x)) /\ (forall x, NoDup (ss_fit_list w x)).
 Proof.
-  intros H w. pose proof (run_KINV ops (init_sys pen) KINV_empty (ops_clean3b_ok ops _ H)) as (_ & _ & _ & _ & _ & _ & S).
+  intros H w. pose proof (run_KINV ops (init_sys pen) KINV_empty (ops_clean3b_ok ops _ H)) as (_ & _ & _ & _ & _ & _ & S & _).
+  exact S.
+Qed.
+
+(* ... and the same for fleets *)
+Theorem fleet_links_consistent pen ops :
+  ops_clean3b (init_sys pen) ops = true ->
+  let w := s_w (run (init_sys pen) ops) in
+  (forall f fl, fit_fleet w f = Some fl <-> In f (fleet_fits w fl)) /\ (forall fl, NoDup (fleet_fits w fl)).
+Proof.
+  intros H w. pose proof (run_KINV ops (init_sys pen) KINV_empty (ops_clean3b_ok ops _ H)) as (_ & _ & _ & _ & _ & _ & _ & S).
   exact S.
 Qed.
